@@ -3,9 +3,9 @@
 cd /verif
 out=seeded/RESULTS.txt
 echo "# seeded-change regression on $(git -C /repo rev-parse --short HEAD) at $(date -u +%FT%TZ)" > $out
-for d in seeded/*/; do
+for d in /verif/seeded/*/; do
   k=$(basename $d)
-  prop=$(python3 -c "import json;print(json.load(open('$d/meta.json'))['breaks_property'])")
+  prop=$(python3 -c "import json,re;print(re.match(r'C\d\d', json.load(open('$d/meta.json'))['breaks_property']).group(0))")
   if ! git -C /repo apply --check $d/patch.diff 2>/dev/null; then echo "$k $prop patch-does-not-apply-to-current-HEAD" >> $out; continue; fi
   git -C /repo apply $d/patch.diff
   res=$(./check $prop 2>&1 | grep -c "^VIOLATION")
